@@ -487,7 +487,22 @@ func TestVerifPMM(t *testing.T) {
 	})
 	run.Count("graph_configs_entry_size_40", int64(nE))
 	run.Count("graph_configs", int64(nA))
-	// Tier A3 (thorough): three regions, reduced shapes
+	// Tier A3: three regions, reduced shapes (a pool that the early-boot allocator skips entirely - e.g. one filled by the
+	// kernel image - between two others needs three regions); quick runs a further reduced shape set
+	if !run.Thorough() {
+		shapes3 := vfPMMShapes([]uint64{1, 2}, []uint64{0, 4096}, []uint64{0}, []uint32{1, 2})
+		n3 := 0
+		vfLayoutsSharded([]uint64{0x100000}, shapes3, 3, run.Mine, func(regs []vfRegion) {
+			if len(regs) != 3 {
+				return
+			}
+			vfPMMConfigs(regs, []int{0, 2}, []uint64{0x10}, func(cfg vfConfig) {
+				n3++
+				c.checkConfig(cfg, "graph")
+			})
+		})
+		run.Count("graph_configs_3_regions", int64(n3))
+	}
 	if run.Thorough() {
 		shapes3 := vfPMMShapes([]uint64{0, 1, 2}, []uint64{0, 4096}, []uint64{0, 0x400}, []uint32{1, 2})
 		n3 := 0
@@ -516,6 +531,6 @@ func TestVerifPMM(t *testing.T) {
 	run.Count("drain_configs", int64(nB))
 	run.Traces = run.Transitions
 	run.Finish(true,
-		fmt.Sprintf("all memory maps of <=%d regions (3 in thorough, reduced shapes) over frames{0,1,2,3} x gaps x head/tail skew x types %v x 3 bases, every kernel placement (start/middle/end/2 pages/covering), early extras %v, memory-map entry sizes 24 and 40: held-set graph to a fixed point; plus word-boundary pools {1,63,64,65,128,129} frames: drain, single and pairwise frees", maxRegions, types, extras),
+		fmt.Sprintf("all memory maps of <=%d regions (plus 3 regions over reduced shapes: frames{1,2} in quick, {0,1,2} in thorough) over frames{0,1,2,3} x gaps x head/tail skew x types %v x 3 bases, every kernel placement (start/middle/end/2 pages/covering), early extras %v, memory-map entry sizes 24 and 40: held-set graph to a fixed point; plus word-boundary pools {1,63,64,65,128,129} frames: drain, single and pairwise frees", maxRegions, types, extras),
 		"a configuration is distinct by (map, kernel, extras) and non-trivial if at least two frames were held at once (graph) or the pool was drained (drain)")
 }
